@@ -220,6 +220,42 @@ class Pure(Case):
         return out
 
 
+class Mutate(Pure):
+    """the value depends on the arguments as they are at the time of the call: after a shell of the same basis object
+    has been given new exponents and a new centre (and its normalisation recomputed) and the points have been
+    overwritten in place, the call on the same objects equals the call on freshly built objects with the new values"""
+
+    def inputs(self, mk):
+        I = Pure.inputs(self, mk)
+        I["new"] = dict(exps=[mk.var("Ne0", ">0"), mk.var("Ne1", ">0")], A=[mk.var("N" + x) for x in "xyz"],
+                        pts=[[mk.var("n" + x) for x in "xyz"]])
+        return I
+
+    def _new_specs(self, I):
+        specs = [dict(I["specs"][0], exps=I["new"]["exps"], A=I["new"]["A"])] + list(I["specs"][1:])
+        return dict(I, specs=specs, pts=I["new"]["pts"])
+
+    def code(self, I, mk):
+        fn = self.params["fn"]
+        self._mk = mk
+        basis, A = self._setup(I, mk)
+        r1, _ = self._run(fn, basis, A)
+        sh = basis[0]
+        sh.exps = mk.array(I["new"]["exps"])
+        sh.coord = mk.array(I["new"]["A"])
+        sh.assign_norm_cont()
+        A["points"][...] = mk.array(I["new"]["pts"])
+        r2, raised = self._run(fn, basis, A)
+        return {"second": r2, "flags": np.array([raised], dtype=object)}
+
+    def ref(self, I, ops, mk):
+        fn = self.params["fn"]
+        self._mk = mk
+        basis, A = self._setup(self._new_specs(I), mk)
+        r, raised = self._run(fn, basis, A)
+        return {"second": r, "flags": np.array([raised], dtype=object)}
+
+
 class Renorm(Case):
     """a shell is unit-normalised as constructed and again after its parameters are changed and the
     normalisation is recomputed"""
@@ -396,6 +432,9 @@ def cases(tier, seed=0):
         out.append(Pure(fn=fn, invalid="shape"))
     for fn in ("overlap_screen_str", "overlap_screen_bool", "overlap_screen_one"):
         out.append(Pure(fn=fn))
+    # parameters changed in place between two calls on the same objects
+    for fn in ("overlap", "eval", "eval_deriv", "deriv_density", "stress", "point_charge") + (("kinetic", "eri", "hessian", "force", "esp") if tier == "thorough" else ()):
+        out.append(Mutate(fn=fn))
     for l, K, M, t in [(0, 2, 1, "c"), (1, 2, 2, "c"), (2, 1, 1, "s")] + ([(2, 2, 2, "c"), (3, 1, 1, "c")] if tier == "thorough" else []):
         out.append(Renorm(l=l, K=K, M=M, type=t))
     for k in range(1, 9):
